@@ -446,6 +446,21 @@ def prop(case, ctx):
                 if back3 != d:
                     fail('(x%+d) - x is %r' % (d, back3))
             ctx.event('arith-from-' + ('array' if v.length is not None else 'pointer'))
+            # the same pointer seen as 'void *' / 'char *' moves in bytes (documented: void * arithmetic
+            # works like char *)
+            for bt in ('void *', 'char *'):
+                bp = ffi.cast(bt, v.cd)
+                br = (bp + i) if name == 'add' else (i + bp) if name == 'radd' else (bp - i)
+                if ffi.typeof(br) is not ffi.typeof(bt) or addr(br) != (addr(bp) + d) % 2 ** 64:
+                    fail('(%s)p %s %d is %r, p is %r' % (bt, name, i, br, bp))
+                bback = br - bp
+                if bback != d or type(bback) is not int:
+                    fail('((%s)p%+d) - (%s)p is %r' % (bt, d, bt, bback))
+                if abs(i) <= n + G:
+                    same = ffi.cast(ptr_t, bp + d * size)
+                    if not (same == r) or addr(same) != addr(r):
+                        fail('(T *)((%s)p %+d*sizeof(T)) is %r but p%+d is %r' % (bt, d, same, d, r))
+            ctx.event('arith-byte-pointers')
             if abs(i) > 100:
                 ctx.event('arith-far-offset')
 
